@@ -20,13 +20,25 @@ def tolabel(x):
     return x
 
 
+def _fresh(x):
+    if isinstance(x, tuple):
+        return tuple(_fresh(y) for y in x) if x else x
+    if isinstance(x, str) and len(x) > 1:
+        return ''.join(list(x))
+    if isinstance(x, int) and not isinstance(x, bool) and abs(x) > 256:
+        return int(str(x))
+    return x
+
+
 def build_graph(gc, directed=False):
     """gc: {'nodes': [labels], 'edges': [[u,v]...], 'ew': {label: [w per edge]}|None, 'nw': {label: [w per node]}|None}"""
     G = nx.DiGraph() if directed or gc.get('directed') else nx.Graph()
     nodes = [tolabel(u) for u in gc['nodes']]
     G.add_nodes_from(nodes)
     for i, e in enumerate(gc['edges']):
-        G.add_edge(tolabel(e[0]), tolabel(e[1]))
+        # edge endpoints are equal to the node labels but not the same Python objects (what read_edgelist, grid graphs or any
+        # code that rebuilds labels produces): label comparisons by identity must not work by accident
+        G.add_edge(_fresh(tolabel(e[0])), _fresh(tolabel(e[1])))
     for lab, ws in (gc.get('ew') or {}).items():
         for e, w in zip(gc['edges'], ws):
             G.adj[tolabel(e[0])][tolabel(e[1])][lab] = w
